@@ -1056,6 +1056,15 @@ class NP:
             return abs(a)
         return abs(self.sp.lift(a))
 
+    def sign(self, a):
+        """sign of exact values: decided at the witness point of the space and recorded as a path condition (the identity proved holds on the region of that sign pattern)"""
+        one = lambda v: self.sp.const(self.sp.const(v).sign())
+        if isinstance(a, (int, float, Fraction, X)):
+            return one(a)
+        a = self.sp.lift(a)
+        f = _np.vectorize(one, otypes=[object])
+        return a._new(a.shape, f(a.data) if a.data.size else a.data)
+
     absolute = abs
 
     def sum(self, a, axis=None, keepdims=False, **k):
